@@ -27,7 +27,8 @@ pub fn run(ctx: &mut Ctx) {
     // warm all tables and engines so that their one-time allocations are out of the way
     for e in crate::objs::ENGINES { let _ = crate::prim::engine(e); }
     let _ = &*reed_solomon_simd::engine::tables::LOG_WALSH;
-    let threshold = 16 * 1024;
+    // every allocation inside a library call counts (the index bitmap is a few hundred bytes)
+    let threshold = 1;
     let mut model_cases = vec![];
     let mut impl_events: Vec<Vec<(usize, bool, String)>> = vec![];
     for i in 0..n {
@@ -51,7 +52,9 @@ pub fn run(ctx: &mut Ctx) {
                     let t: Vec<&str> = l.split(' ').collect();
                     let (kind, k, r, sb): (String, usize, usize, usize) = if t[1] == "reset" { (round.cfg.kind.clone(), t[2].parse().unwrap_or(0), t[3].parse().unwrap_or(0), t[4].parse().unwrap_or(0)) } else { (t[2].to_string(), t[4].parse().unwrap_or(0), t[5].parse().unwrap_or(0), t[6].parse().unwrap_or(0)) };
                     let c = Cfg { kind, engine: String::new(), k, r, sb };
-                    (blocks(&c, enc), if enc { 0 } else { dec_work(&c.kind, k, r) })
+                    // bitmap need: highest received position of the layout
+                    let high = match c.kind.as_str() { "high" => true, "low" => false, _ => rule_is_high(k, r) };
+                    (blocks(&c, enc), if enc { 0 } else if high { npow2(r) + k } else { npow2(k) + r })
                 } else { (0, 0) };
                 if l.contains(" new ") { held = 0; bit_held = 0; }
                 let _ = crate::alloc::take();
@@ -60,12 +63,12 @@ pub fn run(ctx: &mut Ctx) {
                 let ok = matches!(a, Ans::Ok(_));
                 let grows = is_cfg && ok && (need_blocks > held || need_bits > bit_held);
                 if is_cfg && ok { held = held.max(need_blocks); bit_held = bit_held.max(need_bits); }
-                // shard-proportional = at least half of what the configuration in force occupies
-                let cur_bytes = blocks(&round.cfg, enc) * 64;
-                let big = cnt > 0 && largest >= cur_bytes / 2;
+                // once working space is held, a call that does not need more must not allocate at all
+                // (shard memory and index bitmap alike)
+                let big = cnt > 0;
                 if big && !grows {
                     ctx.oracle_fail(
-                        format!("`{}` allocated {} bytes inside the library although the object already holds enough working space ({} blocks held, {} needed by this call)", crate::ctx::short(l), largest, held, need_blocks),
+                        format!("`{}` allocated inside the library ({} allocation(s), largest {} bytes) although the object already holds enough working space ({} blocks / {} bitmap positions held, {} / {} needed by this call)", crate::ctx::short(l), cnt, largest, held, bit_held, need_blocks, need_bits),
                         &case, Some(case.lines.len()));
                 }
                 if is_cfg {
